@@ -709,6 +709,11 @@ def run(ctx: Ctx, rep: Report, tier: str) -> None:
     container_render_order(ctx, rep)
     length_gates(ctx, rep)
     member_numbers_symmetric(ctx, rep)
+    # R06.13 the switches a container renders under are the switches its rebuilt members carry (C16 R16.9): a nested
+    # group that does not receive protocol_nr renders names where the container's re-parse produces numbers
+    from .c16 import settings_propagation
+
+    settings_propagation(ctx, rep, rid="R06.13")
     # R06.12 parsed lines are collected with list operations, never through the de-duplicating Group.add (C12 R12.12)
     from .c12 import no_dedup_collection
 
